@@ -22,6 +22,7 @@ import (
 	layer2 "github.com/KiraCore/sekai/x/layer2"
 	l2keeper "github.com/KiraCore/sekai/x/layer2/keeper"
 	l2types "github.com/KiraCore/sekai/x/layer2/types"
+	spendingkeeper "github.com/KiraCore/sekai/x/spending/keeper"
 	spendingtypes "github.com/KiraCore/sekai/x/spending/types"
 	sdk "github.com/cosmos/cosmos-sdk/types"
 	authtypes "github.com/cosmos/cosmos-sdk/x/auth/types"
@@ -921,6 +922,28 @@ func (ep *l2Ep) lpTakeover(u int, lpDen string) {
 	ep.obs()
 }
 
+// spClaim: a bonder registers as beneficiary of the spending pool the launch created for the dApp (`dp_<name>`, no claim
+// expiry, beneficiary weights = raw bond amounts) and claims some time later. As coded such a claim pays nothing (a zero
+// expiry caps the claimable time at zero); the LP tokens the pool holds stay where they are - no model op, the observation
+// that follows must read as before.
+func (ep *l2Ep) spClaim(u int, name string) {
+	sms := spendingkeeper.NewMsgServerImpl(ep.w.app.SpendingKeeper, ep.w.app.CustomGovKeeper, ep.w.app.BankKeeper)
+	pool := "dp_" + name
+	ctx := ep.cctx()
+	e1 := withCache(ctx, func(c sdk.Context) error {
+		_, e := sms.RegisterSpendingPoolBeneficiary(sdk.WrapSDKContext(c), spendingtypes.NewMsgRegisterSpendingPoolBeneficiary(pool, ep.w.addrs[u]))
+		return e
+	})
+	ep.endBlock(int64([]int{1, 5, 12, 16, 40, 3000}[ep.r.Rng.Intn(6)]))
+	ctx = ep.cctx()
+	e2 := withCache(ctx, func(c sdk.Context) error {
+		_, e := sms.ClaimSpendingPool(sdk.WrapSDKContext(c), spendingtypes.NewMsgClaimSpendingPool(pool, ep.w.addrs[u]))
+		return e
+	})
+	ep.r.Count(fmt.Sprintf("sp-claim:register=%v:claim=%v", e1 == nil, e2 == nil))
+	ep.obs()
+}
+
 func (ep *l2Ep) lpBal(u int, den string) sdkmath.Int {
 	return ep.w.app.BankKeeper.GetBalance(ep.ctx, ep.w.addrs[u], den).Amount
 }
@@ -1151,6 +1174,9 @@ func c20LpEpisode(r *Rec, n int) {
 		if r.Rng.Intn(2) == 0 {
 			ep.bond(2, name, "ukex", 1+r.Rng.Int63n(l2unit))
 		}
+		if r.Rng.Intn(2) == 0 {
+			ep.bond(3, name, "ukex", 1+r.Rng.Int63n(3)) // a dust bond: a beneficiary weight of 1 to 3 in the launch's spending pool
+		}
 	}
 	ep.endBlock(101)
 	// spread the premint LP tokens
@@ -1220,6 +1246,12 @@ func c20LpEpisode(r *Rec, n int) {
 			ep.lpTakeover(3, lp)
 		case x < 95:
 			ep.bond(u, name, "ukex", 1+r.Rng.Int63n(l2unit)) // bonding after launch is allowed by the code
+		case x < 99:
+			if r.Rng.Intn(2) == 0 {
+				ep.spClaim(3, name)
+			} else {
+				ep.spClaim(u, name)
+			}
 		default:
 			ep.endBlock(6)
 		}
